@@ -481,6 +481,48 @@ def rule_R7(toks, fired):
     return toks
 
 
+def rule_R7t(toks, fired):
+    """timeit!{t => "x"; {B}} -> t.start_as_current("x"); {B} t.stop_current();     notimeit!{t; {B}} -> t.suspend(); {B} t.resume();
+    These are the expansions of the two macro_rules in src/timers/timers.rs, written out (the macro bodies paste the token
+    trees between the two calls).  Unlike R7 the timer calls are KEPT, so that a unit can put a contract on them."""
+    i = 0
+    while i < len(toks):
+        t = toks[i]
+        if t.kind == "ident" and t.text in ("timeit", "notimeit"):
+            b = next_code(toks, i + 1)
+            o = next_code(toks, b + 1)
+            if toks[b].text == "!" and toks[o].text == "{":
+                oe = match_close(toks, o)
+                j = o + 1
+                while j < oe and toks[j].text != ";":
+                    if toks[j].kind == "punct" and toks[j].text in OPEN:
+                        j = match_close(toks, j)
+                    j += 1
+                head = [x for x in toks[o + 1:j] if x.kind not in ("ws", "comment")]
+                inner = next_code(toks, j + 1)
+                if toks[inner].text != "{":
+                    raise ExtractError("R7t: unexpected timeit! shape")
+                ie = match_close(toks, inner)
+                if next_code(toks, ie + 1) != oe:
+                    raise ExtractError("R7t: unexpected timeit! tail")
+                if t.text == "timeit":
+                    if not (len(head) == 4 and head[0].kind == "ident" and head[1].text == "=" and head[2].text == ">" and head[3].kind == "str") \
+                            and not (len(head) == 3 and head[0].kind == "ident" and head[1].text == "=>" and head[2].kind == "str"):
+                        raise ExtractError("R7t: unexpected timeit! header " + untok(toks[o + 1:j]))
+                    tm, key = head[0].text, head[-1].text
+                    pre, post = f"{tm}.start_as_current({key}); ", f" {tm}.stop_current();"
+                else:
+                    if not (len(head) == 1 and head[0].kind == "ident"):
+                        raise ExtractError("R7t: unexpected notimeit! header " + untok(toks[o + 1:j]))
+                    tm = head[0].text
+                    pre, post = f"{tm}.suspend(); ", f" {tm}.resume();"
+                toks = toks[:i] + lex(pre) + toks[inner:ie + 1] + lex(post) + toks[oe + 1:]
+                fired["R7t"] = fired.get("R7t", 0) + 1
+                continue
+        i += 1
+    return toks
+
+
 def rule_R10(toks, fired):
     """*X.get_unchecked(i) -> X[i];  *X.get_unchecked_mut(i) -> X[i]"""
     i = 0
@@ -764,6 +806,23 @@ def rule_R14(toks, fired, which=None):
             iv, nv = f"r14_i{nrew}", f"r14_n{nrew}"
             pre, lets = [], []
             for li, (p_, e_) in enumerate(leaves):
+                rl = _r14_range_leaf(e_) if len(leaves) > 1 else None
+                if rl is not None:
+                    # zip leaf `A..B` / `(A..B).rev()` over usize: B - A elements (none if B <= A), element i is A + i resp. B - 1 - i
+                    # (the definition of Range<usize> as an iterator and of Rev on it); bound by value
+                    lo_, hi_, rev_ = rl
+                    lo_v, hi_v = f"r14_lo{nrew}_{li}", f"r14_hi{nrew}_{li}"
+                    pre.append(f"let {lo_v}: usize = {lo_}; let {hi_v}: usize = {hi_};")
+                    ln = f"(if {hi_v} >= {lo_v} {{ {hi_v} - {lo_v} }} else {{ 0 }})"
+                    if not any(x.startswith(f"let mut {nv}:") for x in pre):
+                        pre.append(f"let mut {nv}: usize = {ln};")
+                    else:
+                        pre.append(f"if {ln} < {nv} {{ {nv} = {ln}; }}")
+                    pc = [x for x in _strip_ws(p_) if x.kind not in ("ws", "comment")]
+                    if not (len(pc) == 1 and pc[0].kind == "ident"):
+                        raise ExtractError("R14: unsupported pattern for a range leaf " + untok(p_))
+                    lets.append(f"let {pc[0].text}: usize = " + (f"{hi_v} - 1 - {iv};" if rev_ else f"{lo_v} + {iv};"))
+                    continue
                 base, mutable, limit = _r14_leaf(e_)
                 if mutable is None:
                     if li < len(hints) and hints[li] in "mi":
@@ -807,9 +866,11 @@ def rule_R14(toks, fired, which=None):
     return toks
 
 
-def rule_R15(toks, fired, bases):
+def rule_R15(toks, fired, bases, any_index=False):
     """X[A..B]  ->  X.as_mut_slice()[A..B]   for the listed Vec-typed bases X that are range-indexed mutably.
-    (Vec's IndexMut<Range> has no usable Verus specification; the slice one has.  Same place: deref of the Vec.)"""
+    (Vec's IndexMut<Range> has no usable Verus specification; the slice one has.  Same place: deref of the Vec.)
+    Variant `R15r:X` (any_index): X[E] -> X.as_mut_slice()[E] where E is an expression of type Range<usize> that is not a
+    range literal (`&mut map.Hsblocks[rng.clone()]`); stated per use, a wrong claim about E's type is a compile error."""
     for base in bases:
         pat = sig(lex(base))
         i = 0
@@ -830,7 +891,7 @@ def rule_R15(toks, fired, bases):
                     if x.kind == "punct" and x.text in OPEN: depth += 1
                     if x.kind == "punct" and x.text in CLOSE: depth -= 1
                     if x.kind == "punct" and x.text in ("..", "..=") and depth == 0: has_range = True
-                if has_range:
+                if has_range or any_index:
                     ins = synth(".as_mut_slice()")
                     toks = toks[:ci[-1]] + ins + toks[ci[-1]:]
                     fired["R15"] = fired.get("R15", 0) + 1
@@ -931,8 +992,132 @@ def rule_R19(toks, fired):
     return toks
 
 
+def rule_R31(toks, fired):
+    """let N1 = E1; .. let Nk = Ek;  match IDENT { P => { f(N1, .., Nk.m()) .. } .. }   ->   the Ei inlined (parenthesised) at their uses.
+    A group of immutable, un-annotated `let` bindings that is followed immediately by a `match` on a plain identifier and whose
+    names are used nowhere else is inlined when EVERY arm uses EVERY name exactly once, in binding order, as the first things the
+    arm evaluates (only `{`, `(`, `,`, `::`, callee names and argument-less method calls may stand before / between the uses).
+    Exactly one arm runs, so each Ei is still evaluated exactly once, in the same order, before anything else of the arm; the
+    scrutinee is an identifier, so moving the Ei past its evaluation changes nothing (a panic inside Ei is the same panic).
+    Opens `let cols = X[a..b].iter_mut(); let counts = 1..n; match s { A => zip(cols, counts).for_each(..), B => zip(cols, counts.rev())..}`
+    to R17 / R14."""
+    i = 0
+    while i < len(toks):
+        t = toks[i]
+        if not (t.kind == "ident" and t.text == "let" and not t.syn):
+            i += 1
+            continue
+        group = []      # (name, let_index, eq_index, semi_index)
+        k = i
+        while toks[k].kind == "ident" and toks[k].text == "let":
+            n1 = next_code(toks, k + 1)
+            n2 = next_code(toks, n1 + 1)
+            if not (toks[n1].kind == "ident" and toks[n1].text != "mut" and toks[n2].text == "="):
+                break
+            a, b = stmt_bounds(toks, k)
+            if a != k or toks[b].text != ";":
+                break
+            group.append((toks[n1].text, k, n2, b))
+            k = next_code(toks, b + 1)
+        if not group or not (toks[k].kind == "ident" and toks[k].text == "match"):
+            i += 1
+            continue
+        sc = next_code(toks, k + 1)
+        mo = next_code(toks, sc + 1)
+        if not (toks[sc].kind == "ident" and toks[mo].text == "{"):
+            i += 1
+            continue
+        mc = match_close(toks, mo)
+        names = [g[0] for g in group]
+        ok = True
+        for (nm, li, eq, se) in group:
+            uses = [q for q, x in enumerate(toks) if x.kind == "ident" and x.text == nm and q != next_code(toks, li + 1)]
+            if not uses or any(not (mo < q < mc) for q in uses):
+                ok = False
+            for (nm2, li2, eq2, se2) in group:
+                if any(x.kind == "ident" and x.text == nm for x in toks[eq2 + 1:se2]):
+                    ok = False
+        if not ok:
+            i += 1
+            continue
+        # arms: top-level `=>` inside the match body
+        arrows = []
+        q = mo + 1
+        while q < mc:
+            x = toks[q]
+            if x.kind == "punct" and x.text in OPEN:
+                q = match_close(toks, q) + 1
+                continue
+            if x.kind == "punct" and x.text == "=>":
+                arrows.append(q)
+            q += 1
+        bounds = arrows + [mc]
+        plan = []       # (use_index, name)
+        for ai in range(len(arrows)):
+            lo, hi = bounds[ai] + 1, bounds[ai + 1]
+            us = [(q, toks[q].text) for q in range(lo, hi) if toks[q].kind == "ident" and toks[q].text in names
+                  and toks[prev_code(toks, q - 1)].text not in (".", "::")]
+            if [u[1] for u in us] != names:
+                ok = False
+                break
+            # what stands before the first use / between the uses must not evaluate anything
+            prev = lo
+            for (q, nm) in us:
+                seg = [x for x in toks[prev:q] if x.kind not in ("ws", "comment")]
+                j = 0
+                while j < len(seg):
+                    x = seg[j]
+                    if x.text in ("{", "(", ",", "::", ".") or x.kind == "ident":
+                        j += 1
+                    elif x.text == ")" and j > 0 and seg[j - 1].text == "(":
+                        j += 1
+                    else:
+                        ok = False
+                        break
+                prev = q + 1
+            plan += us
+        if not ok:
+            i += 1
+            continue
+        exprs = {nm: _strip_ws(toks[eq + 1:se]) for (nm, li, eq, se) in group}
+        for (q, nm) in sorted(plan, reverse=True):
+            toks = toks[:q] + synth("(") + exprs[nm] + synth(")") + toks[q + 1:]
+        first, last = group[0][1], group[-1][3]
+        toks = toks[:first] + toks[next_code(toks, last + 1):]
+        fired["R31"] = fired.get("R31", 0) + len(group)
+        i = first + 1
+    return toks
+
+
+def _r14_range_leaf(expr):
+    """a zip leaf that is an integer range: `A..B` -> (A, B, False), `(A..B).rev()` -> (A, B, True), else None"""
+    e = _strip_ws(_strip_parens(_strip_ws(expr)))
+    rev = False
+    c = [i for i, t in enumerate(e) if t.kind not in ("ws", "comment")]
+    if len(c) >= 5 and [e[x].text for x in c[-4:]] == [".", "rev", "(", ")"]:
+        inner = _strip_ws(e[:c[-4]])
+        ci = [i for i, t in enumerate(inner) if t.kind not in ("ws", "comment")]
+        if ci and inner[ci[0]].text == "(" and match_close(inner, ci[0]) == ci[-1]:
+            e = _strip_ws(_strip_parens(inner))
+            rev = True
+        else:
+            return None
+    d = 0
+    for q, t in enumerate(e):
+        if t.kind == "punct" and t.text in OPEN: d += 1
+        elif t.kind == "punct" and t.text in CLOSE: d -= 1
+        elif t.kind == "punct" and t.text == ".." and d == 0:
+            lo, hi = untok(_strip_ws(e[:q])), untok(_strip_ws(e[q + 1:]))
+            if lo and hi:
+                return lo, hi, rev
+            return None
+        elif t.kind == "punct" and t.text == "." and d == 0:
+            return None        # a method call on something: not a bare range
+    return None
+
+
 def rule_R20(toks, fired):
-    """for x in A..=B  ->  for x in A..(B + 1)     (RangeInclusive has no Verus iterator spec; the two ranges yield the
+    """for x in A..=B  ->  for x in A..(B + 1)    (RangeInclusive has no Verus iterator spec; the two ranges yield the
     same values whenever B + 1 does not overflow, and Verus' overflow check on the synthesized `B + 1` makes that a proof
     obligation instead of an assumption)"""
     i = 0
@@ -1364,6 +1549,106 @@ def rule_R30(toks, fired):
     return toks
 
 
+def rule_R32(toks, fired):
+    """`<TYPE as TRAIT<..>>::name(`  ->  `name(` : a trait-static function (no receiver) called by its fully qualified path
+    is called as the free function of the same name; the unit extracts that function's real body from the trait impl
+    (or declares it with an assumed contract, listed in the unit header)"""
+    i = 0
+    while i < len(toks):
+        t = toks[i]
+        if t.kind == "punct" and t.text == "<":
+            pv = prev_code(toks, i - 1)
+            # expression position only: not generics after a path / identifier
+            if pv >= 0 and (toks[pv].kind == "ident" and toks[pv].text not in ("return", "in", "else") or toks[pv].text in ("::", ")", "]", ">")):
+                i += 1
+                continue
+            try:
+                e = match_angle(toks, i)
+            except ValueError:
+                i += 1
+                continue
+            inner = [x for x in toks[i + 1:e] if x.kind not in ("ws", "comment")]
+            c1 = next_code(toks, e + 1)
+            c2 = next_code(toks, c1 + 1) if c1 < len(toks) else len(toks)
+            c3 = next_code(toks, c2 + 1) if c2 < len(toks) else len(toks)
+            if (any(x.kind == "ident" and x.text == "as" for x in inner) and c3 < len(toks) and toks[c1].text == "::"
+                    and toks[c2].kind == "ident" and toks[c3].text == "("):
+                toks = toks[:i] + toks[c2:]
+                fired["R32"] = fired.get("R32", 0) + 1
+                continue
+        i += 1
+    return toks
+
+
+def rule_R35(toks, fired):
+    """IT.filter(|(F1, .., Fk)| C).map(|(M1, .., Mk)| E).collect()   ->
+         { let mut r35_out = Vec::new(); for (r35_a1, .., r35_ak) in IT { <filter binders> if C { <map binders> r35_out.push(E); } } r35_out }
+    (definition of filter + map + collect into a Vec: the items on which the predicate holds, mapped, in iteration order).
+    IT yields tuples of slice-element references (a zip of slices; the `for` is then open to R14).  The closure of `filter`
+    receives `&item`: its leaf `&n` binds n = *r35_aj, its leaf `n` binds n = &r35_aj; the closure of `map` receives the item:
+    leaf `&n` binds n = *r35_aj, leaf `n` binds n = r35_aj.  A `_`-prefixed leaf that its closure body never mentions is not bound."""
+    n = 0
+    i = 0
+    while i < len(toks):
+        t = toks[i]
+        if t.kind == "ident" and t.text == "filter" and not t.syn and toks[prev_code(toks, i - 1)].text == "." \
+                and toks[next_code(toks, i + 1)].text == "(":
+            dot = prev_code(toks, i - 1)
+            p = next_code(toks, i + 1)
+            pe = match_close(toks, p)
+            d2 = next_code(toks, pe + 1)
+            m2 = next_code(toks, d2 + 1)
+            p2 = next_code(toks, m2 + 1)
+            if not (toks[d2].text == "." and toks[m2].text == "map" and toks[p2].text == "("):
+                raise ExtractError("R35: filter(..) is not followed by .map(..)")
+            pe2 = match_close(toks, p2)
+            d3 = next_code(toks, pe2 + 1)
+            m3 = next_code(toks, d3 + 1)
+            p3 = next_code(toks, m3 + 1)
+            if not (toks[d3].text == "." and toks[m3].text == "collect" and toks[p3].text == "(" and next_code(toks, p3 + 1) == match_close(toks, p3)):
+                raise ExtractError("R35: filter(..).map(..) is not followed by .collect()")
+            fpat, fbody = _closure_parts(toks, p, pe)
+            mpat, mbody = _closure_parts(toks, p2, pe2)
+
+            def leaves(pat):
+                c = [q for q, x in enumerate(pat) if x.kind not in ("ws", "comment")]
+                if not (c and pat[c[0]].text == "(" and match_close(pat, c[0]) == c[-1]):
+                    raise ExtractError("R35: closure pattern is not a tuple")
+                out = []
+                for (a_, b_) in split_top_commas(pat, c[0] + 1, c[-1]):
+                    lc = [x for x in pat[a_:b_] if x.kind not in ("ws", "comment")]
+                    if len(lc) == 2 and lc[0].text == "&" and lc[1].kind == "ident":
+                        out.append((True, lc[1].text))
+                    elif len(lc) == 1 and lc[0].kind == "ident":
+                        out.append((False, lc[0].text))
+                    else:
+                        raise ExtractError("R35: unsupported pattern leaf " + untok(pat[a_:b_]))
+                return out
+            fl, ml = leaves(fpat), leaves(mpat)
+            if len(fl) != len(ml):
+                raise ExtractError("R35: filter and map patterns have different arity")
+            n += 1
+            names = [f"r35_a{n}_{k + 1}" for k in range(len(fl))]
+
+            def used(name, body):
+                return any(x.kind == "ident" and x.text == name for x in body)
+            fb = "".join(f"let {nm} = {'*' if amp else '&'}{names[k]}; " for k, (amp, nm) in enumerate(fl)
+                         if not (nm.startswith("_") and not used(nm, fbody)))
+            mb = "".join(f"let {nm} = {'*' if amp else ''}{names[k]}; " for k, (amp, nm) in enumerate(ml)
+                         if not (nm.startswith("_") and not used(nm, mbody)))
+            a = _postfix_start(toks, dot)
+            recv = toks[a:dot]
+            on = f"r35_out{n}"
+            new = (synth(f"{{ let mut {on} = Vec::new(); ") + [_for_tok()] + synth(" (" + ", ".join(names) + ") in ") + _strip_ws(recv)
+                   + synth(" { " + fb + "if ") + fbody + synth(" { " + mb + f"{on}.push(") + mbody + synth(f"); }} }} {on} }}"))
+            toks = toks[:a] + new + toks[match_close(toks, p3) + 1:]
+            fired["R35"] = fired.get("R35", 0) + 1
+            i = a + 1
+            continue
+        i += 1
+    return toks
+
+
 def rule_R18(toks, fired):
     """bare max(a, b) / min(a, b) (core::cmp, imported by `use`) -> usize_max(a, b) / usize_min(a, b): the generic
     Ord-based functions have no Verus spec; the prelude helpers are ASSUMED to be the usize instances"""
@@ -1421,6 +1706,109 @@ def rule_R11(toks, fired):
                 toks = toks[:i] + [S("{")] + new + [S("}")] + toks[bc + 1:]
                 fired["R11"] = fired.get("R11", 0) + 1
                 i += 1
+                continue
+        i += 1
+    return toks
+
+
+def rule_R11z(toks, fired):
+    """R11 for the index loops that R14 (zipidx) synthesises:  for r14_i in 0..r14_n {.. continue ..}  -> explicit
+    while loop (same rewrite as R11, which by design skips synthesised `for` tokens; runs after R14)"""
+    syn_for = [t for t in toks if t.kind == "ident" and t.text == "for" and t.syn]
+    for t in syn_for:
+        t.syn = False
+    try:
+        toks = rule_R11(toks, fired)
+    finally:
+        for t in syn_for:
+            t.syn = True
+    if "R11" in fired:
+        fired["R11z"] = fired.pop("R11")
+    return toks
+
+
+def rule_boolor(toks, fired):
+    """X |= E;  (bool)  ->  { let r_bo = E; X = X || r_bo; }   Verus has no non-short-circuit `|` on bool.  E is still
+    evaluated exactly once and unconditionally (bound first), X is a place expression without side effects (checked: a
+    plain path); on a non-bool X the result does not type-check, so the rule cannot silently change integer code"""
+    n = 0
+    i = 0
+    while i < len(toks):
+        t = toks[i]
+        if t.kind == "punct" and t.text == "|=" and not t.syn:
+            a, b = stmt_bounds(toks, i)
+            if toks[b].text != ";":
+                raise ExtractError("boolor: `|=` is not a statement of its own")
+            lhs = _strip_ws(toks[a:i])
+            if any(x.kind not in ("ident", "ws") and x.text not in (".", "::") for x in lhs):
+                raise ExtractError("boolor: left-hand side is not a plain path")
+            rhs = _strip_ws(toks[i + 1:b])
+            n += 1
+            v = f"r_bo{n}"
+            lhs2 = [Tok(x.kind, x.text, -1, True) for x in lhs]
+            new = synth(f"{{ let {v} = ") + rhs + synth("; ") + lhs + synth(" = ") + lhs2 + synth(f" || {v}; }}")
+            toks = toks[:a] + new + toks[b + 1:]
+            fired["boolor"] = fired.get("boolor", 0) + 1
+            i = a + len(new)
+            continue
+        i += 1
+    return toks
+
+
+def rule_retbrk(toks, fired):
+    """for P in IT { .. return E; .. }   ->   let mut rb_retK = None; for P in IT { .. { rb_retK = Some(E); break; } .. }
+                                              if let Some(rb_v) = rb_retK { return rb_v; }
+    An early `return` out of an (unlabelled) `for` loop is a `break` that carries the value out, followed by the return: E is
+    evaluated at the same point, nothing runs between the `break` and the `return` that follows the loop.  `return`s inside a
+    nested loop are left alone (they still return); a loop body with a closure (`|`) is refused.  Why: Verus checks a loop
+    body in isolation and cannot relate `&mut` borrows taken before the loop to their lenders at a `return` inside the body
+    (the borrow checker rejects an invariant that names the lender); after the loop that relation is available again, and what
+    holds at the `break` is stated as an ordinary loop invariant guarded by `rb_retK is Some`."""
+    n = 0
+    i = 0
+    while i < len(toks):
+        t = toks[i]
+        if t.kind == "ident" and t.text == "for" and not t.syn and toks[next_code(toks, i + 1)].text != "<":
+            bo = _loop_body_open(toks, i)
+            bc = match_close(toks, bo)
+            rets = []
+            j = bo + 1
+            while j < bc:
+                x = toks[j]
+                if x.kind == "ident" and x.text in ("for", "while", "loop"):
+                    j = match_close(toks, _loop_body_open(toks, j)) + 1
+                    continue
+                if x.kind == "ident" and x.text == "return":
+                    rets.append(j)
+                j += 1
+            if rets:
+                p = prev_code(toks, i - 1)
+                if p >= 0 and toks[p].text not in (";", "{", "}"):
+                    raise ExtractError("retbrk: the loop is labelled or not in statement position")
+                if any(x.kind == "punct" and x.text in ("|", "||") for x in toks[bo + 1:bc]):
+                    raise ExtractError("retbrk: `|` (closure?) inside the loop body")
+                n += 1
+                v = f"rb_ret{n}"
+                out = toks[:i] + synth(f"let mut {v} = None;\n        ") + toks[i:rets[0]]
+                for q, rj in enumerate(rets):
+                    e = rj + 1
+                    while e < bc and not (toks[e].kind == "punct" and toks[e].text == ";"):
+                        if toks[e].kind == "punct" and toks[e].text in OPEN:
+                            e = match_close(toks, e)
+                        elif toks[e].kind == "punct" and toks[e].text in CLOSE:
+                            raise ExtractError("retbrk: `return` without a terminating `;`")
+                        e += 1
+                    E = _strip_ws(toks[rj + 1:e])
+                    if not E:
+                        E = synth("()")
+                    out += synth(f"{{ {v} = Some(") + E + synth("); break; }")
+                    nxt = rets[q + 1] if q + 1 < len(rets) else bc + 1
+                    out += toks[e + 1:nxt]
+                out += synth(f"\n        if let Some(rb_v) = {v} {{ return rb_v; }}")
+                resume = len(out)
+                toks = out + toks[bc + 1:]
+                fired["retbrk"] = fired.get("retbrk", 0) + len(rets)
+                i = resume
                 continue
         i += 1
     return toks
@@ -1484,9 +1872,99 @@ def rule_R12(toks, fired):
     return out
 
 
-RULES = {"R30": rule_R30, "R29": rule_R29, "R28": rule_R28, "R27": rule_R27, "R26": rule_R26, "R25": rule_R25, "R24": rule_R24, "R23": rule_R23, "R22": rule_R22, "R21": rule_R21, "R20": rule_R20, "R19": rule_R19, "R18": rule_R18, "R17": rule_R17, "R13": rule_R13, "R5": rule_R5, "R1": rule_R1, "R1f": rule_R1f, "R2": rule_R2, "R3": rule_R3, "R4": rule_R4, "R6": rule_R6, "R7": rule_R7,
-         "R10": rule_R10, "R11": rule_R11, "R12": rule_R12}
-RULE_ORDER = ["R12", "R25", "R7", "R6", "R13", "R18", "R19", "R17", "R21", "R22", "R23", "R24", "R26", "R27", "R28", "R29", "R30", "R20", "R10", "R4", "R3", "R5", "R11", "R2", "R1", "R1f"]
+RULES = {"R35": rule_R35, "R32": rule_R32, "R31": rule_R31, "R30": rule_R30, "R29": rule_R29, "R28": rule_R28, "R27": rule_R27, "R26": rule_R26, "R25": rule_R25, "R24": rule_R24, "R23": rule_R23, "R22": rule_R22, "R21": rule_R21, "R20": rule_R20, "R19": rule_R19, "R18": rule_R18, "R17": rule_R17, "R13": rule_R13, "R5": rule_R5, "R1": rule_R1, "R1f": rule_R1f, "R2": rule_R2, "R3": rule_R3, "R4": rule_R4, "R6": rule_R6, "R7": rule_R7, "R7t": rule_R7t,
+         "R10": rule_R10, "R11": rule_R11, "R12": rule_R12, "R11z": rule_R11z, "boolor": rule_boolor, "retbrk": rule_retbrk}
+RULE_ORDER = ["R12", "R32", "R25", "R7", "R7t", "R6", "R13", "R18", "R31", "R19", "R17", "R21", "R22", "R35", "R23", "R24", "R26", "R27", "R28", "R29", "R30", "R20", "R10", "boolor", "retbrk", "R4", "R3", "R5", "R11", "R11z", "R2", "R1", "R1f"]
+
+
+def rule_R40(toks, fired):
+    """X.sort_by_key(|&(K, _)| K)  ->  sort_pairs_by_key0(&mut X)     (&mut X: the auto-ref of the method call)
+    a Vec of pairs sorted by its first component: a call of the prelude helper (prelude/sort_assumed.rs) whose contract is the
+    ASSUMED documented behaviour of the std sort (a stable permutation, keys nondecreasing).  Any other closure is outside the rule."""
+    i = 0
+    while i < len(toks):
+        t = toks[i]
+        if t.kind == "ident" and t.text == "sort_by_key" and not t.syn \
+                and toks[prev_code(toks, i - 1)].text == "." and toks[next_code(toks, i + 1)].text == "(":
+            dot = prev_code(toks, i - 1)
+            p = next_code(toks, i + 1)
+            pe = match_close(toks, p)
+            a = _postfix_start(toks, dot)
+            recv = toks[a:dot]
+            pat, body = _closure_parts(toks, p, pe)
+            pc = [x.text for x in pat if x.kind not in ("ws", "comment")]
+            bc = [x.text for x in body if x.kind not in ("ws", "comment")]
+            if not (len(pc) == 6 and pc[0] == "&" and pc[1] == "(" and pc[3] == "," and pc[4] == "_" and pc[5] == ")" and bc == [pc[2]]):
+                raise ExtractError("R40: sort_by_key closure is not |&(k, _)| k")
+            new = synth("sort_pairs_by_key0(&mut ") + recv + synth(")")
+            toks = toks[:a] + new + toks[pe + 1:]
+            fired["R40"] = fired.get("R40", 0) + 1
+            i = a + 1
+            continue
+        i += 1
+    return toks
+
+
+def rule_R41(toks, fired):
+    """X.extend(repeat(E).take(N))  ->  vec_extend_repeat(&mut X, E, N)
+    (prelude/sort_assumed.rs, ASSUMED: appends N copies of E — the documented meaning of Extend on a Vec fed by repeat(..).take(..))"""
+    i = 0
+    while i < len(toks):
+        t = toks[i]
+        if t.kind == "ident" and t.text == "extend" and not t.syn \
+                and toks[prev_code(toks, i - 1)].text == "." and toks[next_code(toks, i + 1)].text == "(":
+            dot = prev_code(toks, i - 1)
+            p = next_code(toks, i + 1)
+            pe = match_close(toks, p)
+            inner = [k for k in range(p + 1, pe) if toks[k].kind not in ("ws", "comment")]
+            # repeat ( E ) . take ( N )
+            if len(inner) >= 8 and toks[inner[0]].text == "repeat" and toks[inner[1]].text == "(":
+                e_close = match_close(toks, inner[1])
+                d2 = next_code(toks, e_close + 1)
+                tk = next_code(toks, d2 + 1)
+                tp = next_code(toks, tk + 1)
+                if toks[d2].text == "." and toks[tk].text == "take" and toks[tp].text == "(" and match_close(toks, tp) == prev_code(toks, pe - 1):
+                    a = _postfix_start(toks, dot)
+                    recv = toks[a:dot]
+                    E = _strip_ws(toks[inner[1] + 1:e_close])
+                    N = _strip_ws(toks[tp + 1:match_close(toks, tp)])
+                    new = synth("vec_extend_repeat(&mut ") + recv + synth(", ") + E + synth(", ") + N + synth(")")
+                    toks = toks[:a] + new + toks[pe + 1:]
+                    fired["R41"] = fired.get("R41", 0) + 1
+                    i = a + 1
+                    continue
+            raise ExtractError("R41: extend argument is not repeat(E).take(N)")
+        i += 1
+    return toks
+
+
+# registered additively (unit csc_build); run before the closure-rewriting rules
+RULES["R40"] = rule_R40
+RULES["R41"] = rule_R41
+RULE_ORDER[RULE_ORDER.index("R23"):RULE_ORDER.index("R23")] = ["R40", "R41"]
+
+
+def rule_setiter(toks, fired, names):
+    """setiter:S1|S2  -  `for PAT in S {`  ->  `for PAT in S.iter() {`  for the listed identifiers S that are (references to) an
+    indexmap::IndexSet: `impl IntoIterator for &IndexSet` is defined as `self.iter()` (indexmap/src/set.rs).  Verus has no
+    IntoIterator model for a hand-written stand-in type, it has one for what the stand-in's `iter()` returns."""
+    i = 0
+    while i < len(toks):
+        t = toks[i]
+        if t.kind == "ident" and t.text == "for" and not t.syn:
+            j = i + 1
+            while j < len(toks) and not (toks[j].kind == "ident" and toks[j].text == "in"):
+                if toks[j].kind == "punct" and toks[j].text == "{":
+                    break
+                j += 1
+            if j < len(toks) and toks[j].text == "in":
+                bo = _loop_body_open(toks, i)
+                ex = [k for k in range(j + 1, bo) if toks[k].kind not in ("ws", "comment")]
+                if len(ex) == 1 and toks[ex[0]].kind == "ident" and toks[ex[0]].text in names:
+                    toks = toks[:ex[0] + 1] + synth(".iter()") + toks[ex[0] + 1:]
+                    fired["setiter"] = fired.get("setiter", 0) + 1
+        i += 1
+    return toks
 
 
 def apply_rules(toks, rules, fired):
@@ -1515,9 +1993,13 @@ def apply_rules(toks, rules, fired):
             toks = rule_R16(toks, fired, [b for b in r[4:].split("|") if b])
         elif r.startswith("R15:"):
             toks = rule_R15(toks, fired, [b for b in r[4:].split("|") if b])
+        elif r.startswith("R15r:"):
+            toks = rule_R15(toks, fired, [b for b in r[5:].split("|") if b], any_index=True)
         elif r.startswith("tparam:"):
             a, _, b = r[7:].partition(">")
             toks = rule_R1(toks, fired, a, b)
+        elif r.startswith("setiter:"):
+            toks = rule_setiter(toks, fired, [b for b in r[8:].split("|") if b])
         elif r not in RULES:
             raise ExtractError(f"unknown rule {r}")
     return toks
@@ -2063,6 +2545,8 @@ def render_item(unit, kind, opts, sections):
     else:
         if opts.get("from"):
             item = slice_fn(item, opts, fired)
+        if opts.get("hoist"):
+            item = hoist_closure(item, opts, fired)
         item = apply_rules(item, ["R12"] + rules, fired)
         if opts.get("params"):
             item = rename_params(item, [x for x in opts["params"].split(",")], fired)
@@ -2084,7 +2568,7 @@ def render_item(unit, kind, opts, sections):
     start = unit.offset
     unit.emit(emitted + "\n")
     unit.items.append({
-        "kind": kind, "name": opts.get("as", name), "orig_name": name, "file": opts["file"], "in": opts.get("in"),
+        "kind": kind, "name": opts.get("as", opts["hoist"] if opts.get("part") == "closure" else name), "orig_name": name, "file": opts["file"], "in": opts.get("in"),
         "src_bytes": [orig[0].pos, orig[-1].pos + len(orig[-1].text)],
         "sha256": hashlib.sha256(orig_text.encode()).hexdigest(),
         "rules": fired, "emit_bytes": [start, unit.offset],
@@ -2125,6 +2609,165 @@ def slice_fn(item, opts, fired):
         raise ExtractError("lost anchor: slice end precedes slice start")
     fired["slice"] = 1
     return synth(opts["header"] + " {\n        ") + item[a:b + 1] + synth("\n}")
+
+
+def hoist_closure(item, opts, fired):
+    """hoist=NAME captures=a,b,.. part=closure|outer : a non-escaping local closure
+
+           let [mut] NAME = |p1: T1, ..| -> R { BODY };   ...  NAME(e1, ..)  ...
+
+    of a method is split mechanically into   part=closure:  fn NAME(<receiver of the enclosing fn>, <captures>, p1: T1, ..) -> R { BODY }
+    (BODY verbatim) and   part=outer:  the enclosing fn without the `let`, every call rewritten to self.NAME(<captures>, e1, ..).
+    Sound because (checked here, else ExtractError): the closure is only ever *called* (it does not escape, so every call is
+    synchronous and sees the current values); the listed captures are parameters of the enclosing fn of shared-reference type
+    that are never re-bound (a copy of a `&` reference is the reference); `self` is the only other capture (the body reads /
+    writes fields through it; the hoisted fn gets the enclosing receiver); every other name of the enclosing fn used inside
+    the closure body must be bound inside the body itself (else it would be an unlisted capture -> ExtractError).  A name that
+    is none of these resolves to a module-level item in both versions."""
+    name = opts["hoist"]
+    part = opts.get("part")
+    caps = [c for c in opts.get("captures", "").split(",") if c]
+    if part not in ("closure", "outer"):
+        raise ExtractError("hoist: part=closure|outer")
+    he = fn_header_end(item)
+    bc = match_close(item, he)
+    # --- locate  let [mut] NAME = |..| -> R { .. };
+    ci = [i for i in code_idx(item) if he < i < bc]
+    hit = None
+    for q, i in enumerate(ci):
+        if item[i].kind == "ident" and item[i].text == "let":
+            j = q + 1
+            if item[ci[j]].text == "mut":
+                j += 1
+            if item[ci[j]].text == name and item[ci[j + 1]].text == "=" and item[ci[j + 2]].text == "|":
+                if hit is not None:
+                    raise ExtractError(f"lost anchor: hoist: closure {name} defined twice")
+                hit = (i, ci[j + 2])
+    if hit is None:
+        raise ExtractError(f"lost anchor: hoist: no `let {name} = |..|`")
+    let_i, c0 = hit
+    c1 = c0 + 1
+    while item[c1].text != "|":
+        if item[c1].kind == "punct" and item[c1].text in ("(", "["):
+            c1 = match_close(item, c1)
+        c1 += 1
+    arrow = next_code(item, c1 + 1)
+    if item[arrow].text != "->":
+        raise ExtractError("hoist: the closure must carry an explicit return type")
+    bo = arrow + 1
+    while not (item[bo].kind == "punct" and item[bo].text == "{"):
+        if item[bo].kind == "punct" and item[bo].text in ("(", "["):
+            bo = match_close(item, bo)
+        bo += 1
+    be = match_close(item, bo)
+    semi = next_code(item, be + 1)
+    if item[semi].text != ";":
+        raise ExtractError("hoist: closure definition is not a complete let statement")
+    cparams = split_top_commas(item, c0 + 1, c1)
+    cnames = []
+    for (a, b) in cparams:
+        seg = [t for t in item[a:b] if t.kind not in ("ws", "comment")]
+        if not seg:
+            continue
+        nm = seg[1] if seg[0].text == "mut" else seg[0]
+        if nm.kind != "ident" or not any(t.text == ":" for t in seg):
+            raise ExtractError("hoist: closure parameters must be typed identifiers")
+        cnames.append(nm.text)
+    rettype = _strip_ws(item[arrow + 1:bo])
+    body = item[bo:be + 1]
+    # --- enclosing header: receiver and the captured parameters
+    k = next(i for i, t in enumerate(item) if t.kind == "ident" and t.text == "fn")
+    p = next_code(item, next_code(item, k + 1) + 1)
+    if item[p].text != "(":
+        raise ExtractError("hoist: enclosing fn has generics of its own")
+    pe = match_close(item, p)
+    receiver = None
+    ptypes = {}
+    pnames = []
+    for (a, b) in split_top_commas(item, p + 1, pe):
+        seg = [t for t in item[a:b] if t.kind not in ("ws", "comment")]
+        if not seg:
+            continue
+        if any(t.text == "self" for t in seg[:3]):
+            receiver = _strip_ws(item[a:b])
+            continue
+        if seg[0].kind == "ident" and seg[0].text != "mut" and seg[1].text == ":":
+            ptypes[seg[0].text] = (_strip_ws(item[a:b]), seg[2].text == "&" and seg[3].text != "mut")
+        pnames.append(seg[1].text if seg[0].text == "mut" else seg[0].text)
+    for c in caps:
+        if c not in ptypes or not ptypes[c][1]:
+            raise ExtractError(f"hoist: capture {c} is not a (non-mut) parameter of shared-reference type")
+    uses_self = any(t.kind == "ident" and t.text == "self" for t in body)
+    if uses_self and receiver is None:
+        raise ExtractError("hoist: closure uses self but the enclosing fn has no receiver")
+    # --- names bound in the enclosing fn (outside the closure): must not re-bind a capture, must not be used unlisted
+    def bound_names(lo, hi, skip=None):
+        out = set()
+        i = lo
+        while i < hi:
+            if skip and skip[0] <= i <= skip[1]:
+                i = skip[1] + 1
+                continue
+            t = item[i]
+            if t.kind == "ident" and t.text in ("let", "for") and not t.syn:
+                stop = ("=", ";", ":") if t.text == "let" else ("in",)
+                j = i + 1
+                while j < hi and item[j].text not in stop:
+                    if item[j].kind == "ident" and item[j].text not in ("mut", "ref"):
+                        out.add(item[j].text)
+                    j += 1
+            i += 1
+        return out
+    outer_bound = bound_names(he + 1, bc, (let_i, semi)) | {name}
+    for c in caps:
+        if c in outer_bound:
+            raise ExtractError(f"hoist: capture {c} is re-bound in the enclosing fn")
+    inner_bound = bound_names(bo, be) | set(cnames)
+    for t in body:
+        if t.kind == "ident" and t.text != name and (t.text in outer_bound or t.text in pnames) \
+                and t.text not in caps and t.text not in inner_bound:
+            pvt = None
+            raise ExtractError(f"hoist: closure body uses {t.text} of the enclosing fn: not a listed capture")
+    fired["hoist"] = 1
+
+    def cp(ts):
+        return [Tok(t.kind, t.text, t.pos, t.syn) for t in ts]
+    if part == "closure":
+        hdr = synth(f"fn {name}(")
+        parts = ([cp(receiver)] if uses_self else []) + [cp(ptypes[c][0]) for c in caps] + [cp(_strip_ws(item[a:b])) for (a, b) in cparams if _strip_ws(item[a:b])]
+        for q, ts in enumerate(parts):
+            if q:
+                hdr += synth(", ")
+            hdr += ts
+        hdr += synth(") -> ") + cp(rettype) + synth(" ")
+        return hdr + cp(body)
+    # part == "outer": drop the let statement, rewrite the calls
+    out = []
+    i = 0
+    while i < len(item):
+        if i == let_i:
+            i = semi + 1
+            while i < len(item) and item[i].kind == "ws":
+                i += 1
+            continue
+        t = item[i]
+        if he < i < bc and t.kind == "ident" and t.text == name:
+            nx = next_code(item, i + 1)
+            if item[nx].text != "(" or item[prev_code(item, i - 1)].text in (".", "::"):
+                raise ExtractError(f"hoist: closure {name} is used other than by calling it (it may escape)")
+            if uses_self:
+                out += synth("self.")
+            elif receiver is not None:
+                out += synth("Self::")
+            out.append(t)
+            out += item[i + 1:nx + 1]
+            empty = next_code(item, nx + 1) == match_close(item, nx)
+            out += synth(", ".join(caps) + ("" if (empty or not caps) else ", "))
+            i = nx + 1
+            continue
+        out.append(t)
+        i += 1
+    return out
 
 
 def render_trait(item, opts, sections, rules, fired):
